@@ -1,5 +1,6 @@
 """C05 - selector lists and logical pseudo-classes form a Boolean algebra."""
 import warnings
+import bs4
 import lib, e1, campaign, matchcheck, gen_selectors
 from lib import Check
 
@@ -22,7 +23,7 @@ def run(tier, seed):
     custom = {':--cust': 'p, div > span', ':--c2': ':is(a, :--cust):not(.x)'}
     scs = []
     for profile in ('core', 'forms', 'langdir', 'ns', 'contains'):
-        for sc in campaign.build(rnd, profile, (n // 5 + 1) * (2 if profile == 'ns' else 1), 0):
+        for sc in campaign.build(rnd, profile, (n // 5 + 1) * (2 if profile in ('ns', 'forms') else 1), 0):
             top = sc.top
             pools = gen_selectors.pools_from_soup(top)
             nsmap = rnd.choice(campaign.NSMAPS) if profile == 'ns' else rnd.choice([None, None, {'': gen_selectors.sv.css_match.NS_XHTML}])
@@ -43,6 +44,7 @@ def run(tier, seed):
             except Exception:
                 continue
             order = {id(e): i for i, e in enumerate(universe)}
+            elements_all = list(top.find_all(True))
             for it in range(6):
                 A, B = sg.complex(1), sg.complex(1)
                 if profile == 'ns' and it < 3 and prefixes:
@@ -52,6 +54,25 @@ def run(tier, seed):
                     B = rnd.choice(prefixes) + '|' + rnd.choice(['*'] + pools['names'])
                     if rnd.random() < 0.5:
                         A, B = B, A
+                if profile in ('forms', 'langdir') and it >= 2:
+                    # an HTML-only alternative (evaluated under the own-document restriction, walking ancestors / forms)
+                    # next to a descendant combinator whose ancestor lies OUTSIDE the iframe the element is in
+                    from props.C11 import HTML_ONLY
+                    inner = [e for f_ in top.find_all('iframe') for e in f_.find_all(True)]
+                    ctrl = [e for e in inner if e.name in ('input', 'button', 'select', 'textarea', 'option', 'fieldset', 'optgroup')]
+                    el_ = rnd.choice(ctrl) if ctrl and rnd.random() < 0.7 else rnd.choice(inner) if inner and rnd.random() < 0.7 else \
+                        rnd.choice(elements_all) if elements_all else None
+                    if el_ is not None:
+                        ancs = [a_ for a_ in el_.parents if isinstance(a_, bs4.Tag) and not isinstance(a_, bs4.BeautifulSoup)]
+                        fr = next((a_ for a_ in ancs if a_.name == 'iframe'), None)
+                        outside = [a_ for a_ in (fr.parents if fr is not None else []) if isinstance(a_, bs4.Tag) and not isinstance(a_, bs4.BeautifulSoup)]
+                        if ancs:
+                            A = rnd.choice([':disabled', ':enabled', ':read-write', ':read-only', ':default', ':checked', ':required', ':optional',
+                                            ':indeterminate', ':dir(ltr)', ':lang(en)'] + HTML_ONLY[:4])
+                            anc_ = rnd.choice(outside) if outside and rnd.random() < 0.8 else rnd.choice(ancs)
+                            B = f'{anc_.name} {el_.name}'
+                            if rnd.random() < 0.5:
+                                A, B = B, A
                 X = rnd.choice(['*|*', 'p', 'div', '.x', 'input', '*'])
                 pats = {'A': A, 'B': B, 'A,B': f'{A}, {B}', 'isA': f':is({A})', 'isB': f':is({B})', 'isAB': f':is({A}, {B})',
                         'notA': f':not({A})', 'notAB': f':not({A}, {B})', 'whereAB': f':where({A}, {B})',
